@@ -4,6 +4,7 @@ from __future__ import annotations
 
 import asyncio
 import os
+from functools import partial
 from importlib.resources import files
 from pathlib import Path
 from typing import TYPE_CHECKING
@@ -88,14 +89,25 @@ class PackageLoader(BaseLoader):
 
     async def get_source_async(
         self,
-        env: Environment,  # noqa: ARG002
+        env: Environment,
         template_name: str,
         *,
-        context: RenderContext | None = None,  # noqa: ARG002
-        **kwargs: object,  # noqa: ARG002
+        context: RenderContext | None = None,
+        **kwargs: object,
     ) -> TemplateSource:
         """Get source information for a template."""
         loop = asyncio.get_running_loop()
+
+        if (
+            type(self).get_source is not PackageLoader.get_source
+            and type(self).get_source_async is PackageLoader.get_source_async
+        ):
+            # A subclass that customizes `get_source()` only. Asynchronous callers
+            # get the same template source as synchronous ones.
+            return await loop.run_in_executor(
+                None,
+                partial(self.get_source, env, template_name, context=context, **kwargs),
+            )
 
         source_path = await loop.run_in_executor(
             None,
